@@ -1072,6 +1072,7 @@ Qed.
 
 From Coq Require String Ascii.
 Import String.StringSyntax.
+Delimit Scope string_scope with string.
 From AFGen Require Import GenEnums.
 Open Scope Z_scope.
 
@@ -1178,11 +1179,20 @@ Fixpoint assoc_n (k : str) (l : list (str * N)) : option N :=
 Fixpoint assoc_s (k : str) (l : list (str * str)) : option str :=
   match l with [] => None | (a, b) :: r => if str_eqb a k then Some b else assoc_s k r end.
 
+Definition stn (name : String.string) (z : Z) : bool :=
+  match assoc_n (S name) conn_state with Some n => Z.of_N n =? z | None => false end.
+Definition rl (name : String.string) (z : Z) : bool :=
+  match assoc_n (S name) conn_role with Some n => Z.of_N n =? z | None => false end.
+Definition mt (name : String.string) (v : str) : bool :=
+  match assoc_s (S name) fmsg with Some x => str_eqb x v | None => false end.
+Definition tg (name : String.string) (v : str) : bool :=
+  match assoc_s (S name) ftag with Some x => str_eqb x v | None => false end.
+Arguments stn name%string z%Z.
+Arguments rl name%string z%Z.
+Arguments mt name%string v.
+Arguments tg name%string v.
+
 Definition enums_ok : bool :=
-  let stn (name : String.string) z := match assoc_n (S name) conn_state with Some n => Z.of_N n =? z | None => false end in
-  let rl (name : String.string) z := match assoc_n (S name) conn_role with Some n => Z.of_N n =? z | None => false end in
-  let mt (name : String.string) v := match assoc_s (S name) fmsg with Some x => str_eqb x v | None => false end in
-  let tg (name : String.string) v := match assoc_s (S name) ftag with Some x => str_eqb x v | None => false end in
   stn "DISCONNECTED_WCONN_TODAY" ST_DISC_WCONN && stn "DISCONNECTED_BROKEN_CONN" ST_DISC_BROKEN
   && stn "DISCONNECTED_NOCONN_TODAY" 1
   && stn "NETWORK_CONN_ESTABLISHED" ST_NCE && stn "LOGON_INITIAL_SENT" ST_LOGON_SENT
